@@ -1,5 +1,5 @@
 #!/usr/bin/env python3
-"""setup_cmd: syntax-check every specification module with SANY (nothing is built ahead of time)."""
+"""setup_cmd: syntax-check every specification module with SANY, then run the binding self-test (nothing is built ahead of time)."""
 import os, sys
 sys.path.insert(0, os.path.dirname(os.path.abspath(__file__)))
 import tlc
@@ -11,4 +11,8 @@ for f in sorted(os.listdir(tlc.SPEC_DIR)):
         if not ok:
             bad += 1
             print(out[-1500:])
-sys.exit(1 if bad else 0)
+if bad:
+    sys.exit(1)
+# binding self-test on a committed fixture (does not touch /repo): corrupted logs must be rejected with the right clause
+import selftest
+sys.exit(selftest.main())
